@@ -123,6 +123,13 @@ func (conv *converter) ConvertFile(f *ast.File) *ir.File {
 		}
 
 		if conv.isMatcherFunc(funcDecl) {
+			// The typecheck does not reject two functions named _,
+			// or equal-named methods of different types.
+			for i := range result.RuleGroups {
+				if result.RuleGroups[i].Name == funcDecl.Name.String() {
+					panic(conv.errorf(funcDecl.Name, "duplicated rule group %s", funcDecl.Name))
+				}
+			}
 			result.RuleGroups = append(result.RuleGroups, *conv.convertRuleGroup(funcDecl))
 		} else {
 			conv.addCustomDecl(result, funcDecl)
